@@ -1283,6 +1283,30 @@ impl<T> TCompactInputProtocol<T> {
 }
 
 impl TCompactInputProtocol<&mut Bytes> {
+    /// Every element occupies at least one byte, so a container cannot have more
+    /// elements than there are bytes left. Decoders size their containers from
+    /// this number, so reject it before it is used.
+    #[inline]
+    fn check_container_size(&self, size: i32) -> Result<(), ThriftException> {
+        if size < 0 {
+            return Err(new_protocol_exception(
+                ProtocolExceptionKind::NegativeSize,
+                format!("negative container size {}", size),
+            ));
+        }
+        if size as usize > self.trans.len() {
+            return Err(new_protocol_exception(
+                ProtocolExceptionKind::SizeLimit,
+                format!(
+                    "container size {} exceeds the {} remaining bytes",
+                    size,
+                    self.trans.len()
+                ),
+            ));
+        }
+        Ok(())
+    }
+
     #[inline]
     fn read_varint<VI: VarInt>(&mut self) -> Result<VI, ThriftException> {
         let mut p = VarIntProcessor::new::<VI>();
@@ -1306,6 +1330,7 @@ impl TCompactInputProtocol<&mut Bytes> {
         } else {
             self.read_varint::<u32>()? as i32
         };
+        self.check_container_size(element_count)?;
         Ok((element_type, element_count as usize))
     }
 }
@@ -1767,6 +1792,7 @@ impl TInputProtocol for TCompactInputProtocol<&mut Bytes> {
     // #[inline]
     fn read_map_begin(&mut self) -> Result<TMapIdentifier, ThriftException> {
         let element_count = self.read_varint::<u32>()? as i32;
+        self.check_container_size(element_count)?;
         if element_count == 0 {
             Ok(TMapIdentifier::new(TType::Stop, TType::Stop, 0))
         } else {
